@@ -350,6 +350,8 @@ def gen_workload(ctx):
     w.recv_suspends = bool(ch.draw(2, 'recv_suspends'))
     w.predeliver = ch.draw(3, 'predeliver') == 0
     w.short_reads = bool(ch.draw(2, 'short_reads'))
+    # the responder keeps the parts and reads name / filename / content type only after the loop
+    w.late_fields = ch.draw(4, 'late_fields') == 3
     w.pipelined = b''
     if ch.draw(4, 'pipelined') == 3:
         w.pipelined = delim + CRLF + b'Content-Disposition: form-data; name=next' + CRLF + CRLF + b'N' + delim + b'--'
@@ -678,6 +680,7 @@ def run_wsgi(ctx, w, data, cl, truncated):
     def on_post(req, resp):
         obs['invoked'] = True
         recs = obs['records']
+        later = []
         try:
             form = req.get_media()
             i = 0
@@ -685,7 +688,10 @@ def run_wsgi(ctx, w, data, cl, truncated):
                 pat = pats[i] if i < len(pats) else ('full',)
                 rec = _new_rec(i, pat)
                 recs.append(rec)
-                _hdr_fields(part, rec)
+                if w.late_fields:
+                    later.append((part, rec))
+                else:
+                    _hdr_fields(part, rec)
                 rf = getattr(part.stream, '_read_func', None)
                 if rf is not None:
                     part.stream._read_func = _ReadBudget(rf, 40 * cap)
@@ -702,6 +708,9 @@ def run_wsgi(ctx, w, data, cl, truncated):
                 obs['terminal'] = ('done',)
         except Exception as ex:
             obs['terminal'] = ('error', classify(ex))
+        # an application may keep the parts and look at their names only after the loop
+        for part, rec in later:
+            _hdr_fields(part, rec)
 
     app = _get_app('wsgi', on_post)
     set_options(app, w)
@@ -764,6 +773,7 @@ def run_asgi(ctx, w, chunks, cl, disconnect):
     async def on_post(req, resp):
         obs['invoked'] = True
         recs = obs['records']
+        later = []
         try:
             form = await req.get_media()
             i = 0
@@ -771,7 +781,10 @@ def run_asgi(ctx, w, chunks, cl, disconnect):
                 pat = pats[i] if i < len(pats) else ('full',)
                 rec = _new_rec(i, pat)
                 recs.append(rec)
-                _hdr_fields(part, rec)
+                if w.late_fields:
+                    later.append((part, rec))
+                else:
+                    _hdr_fields(part, rec)
                 try:
                     await consume_async(part, pat, rec, cap)
                     rec['done'] = True
@@ -785,6 +798,8 @@ def run_asgi(ctx, w, chunks, cl, disconnect):
                 obs['terminal'] = ('done',)
         except Exception as ex:
             obs['terminal'] = ('error', classify(ex))
+        for part, rec in later:
+            _hdr_fields(part, rec)
 
     app = _get_app('asgi', on_post)
     set_options(app, w)
@@ -1166,7 +1181,7 @@ def run(ctx):
         'chunk_size_sync': w.cs_sync, 'chunk_size_async': w.cs_async, 'delimiter_len': w.dlen,
         'cuts': w.cuts if len(w.cuts) < 40 else 'every %d' % (w.cuts[1] - w.cuts[0]),
         'asgi_content_length': w.asgi_cl, 'recv_suspends': w.recv_suspends, 'predeliver': w.predeliver,
-        'wsgi_short_reads': w.short_reads, 'pipelined': bool(w.pipelined),
+        'wsgi_short_reads': w.short_reads, 'pipelined': bool(w.pipelined), 'late_fields': w.late_fields,
         'fault': None if fault is None else [fault[0], fault[1], fault[2]],
         'bytes_sent': data.decode('latin-1') if fault is not None else None,
     }
